@@ -213,8 +213,9 @@ def main(argv=None):
                                    stdout=open(os.path.join(scratch, 'shrink_%d.log' % j), 'w'), stderr=subprocess.STDOUT)
                     sh = json.load(open(outp))
                     v = sh['outcome'].get('violation')
-                    if v and v['sig'] == list(sig):
+                    if v and v['sig'][:3] == list(sig)[:3]:
                         rep['original_scenario'] = r['scenario']
+                        rep['expect']['signature'] = v['sig']
                         rep['scenario'] = sh['scenario']
                         rep['expect']['digest'] = sh['outcome'].get('digest')
                         rep['detail'] = v['detail']
